@@ -3,6 +3,7 @@ package reasm
 import (
 	"fmt"
 	"math"
+	"sync"
 	"testing"
 	"time"
 
@@ -562,3 +563,49 @@ func propC19Nested(h History) error {
 func TestC19NestedRegress(t *testing.T) { hx.Regress(t, hC19, "TestC19Nested", propC19Nested) }
 
 func TestC19Nested(t *testing.T) { hx.Check(t, hC19, "TestC19Nested", genC19Nested, propC19Nested) }
+
+// TestC19LongSleeps: long timeouts and real sleeps of the length of a "grace period" somebody might think of.
+// An incomplete event is the oldest buffered one, younger events complete behind it (and are held back by it),
+// the harness sleeps 0.7 s and 1.2 s (thorough: also 2.5 s, 5.5 s, 11 s) and calls Maintain and pushes: with a
+// timeout of three times the sleep, an hour or "never", nothing is delivered on account of time. The histories
+// run side by side (each on its own Reassembler); the oracle is propC19's.
+func TestC19LongSleeps(t *testing.T) {
+	sleeps := []time.Duration{700 * time.Millisecond, 1200 * time.Millisecond}
+	if hx.Thorough() {
+		sleeps = append(sleeps, 2500*time.Millisecond, 5500*time.Millisecond, 11*time.Second)
+	}
+	var hs []History
+	for _, s := range sleeps {
+		for _, T := range []time.Duration{3 * s, time.Hour, time.Duration(math.MaxInt64)} {
+			for variant := 0; variant < 2; variant++ {
+				h := History{MaxInFlight: 8, TimeoutNs: int64(T), Windowed: true, Base: 1 << 10}
+				h.Ops = append(h.Ops, Op{K: opPush, Seq: h.Base + 1, Typ: 1300})
+				if variant == 1 {
+					h.Ops = append(h.Ops, Op{K: opPush, Seq: h.Base + 1, Typ: 1302})
+				}
+				h.Ops = append(h.Ops, Op{K: opPush, Seq: h.Base + 2, Typ: 1300}, Op{K: opPush, Seq: h.Base + 2, Typ: eoe},
+					Op{K: opPush, Seq: h.Base + 3, Typ: 1300}, Op{K: opPush, Seq: h.Base + 3, Typ: 1327},
+					Op{K: opSleep, SleepUs: int(s / time.Microsecond)}, Op{K: opMaintain},
+					Op{K: opPush, Seq: h.Base + 4, Typ: 1300}, Op{K: opMaintain}, Op{K: opClose})
+				hs = append(hs, h)
+			}
+		}
+	}
+	errs := make([]error, len(hs))
+	var wg sync.WaitGroup
+	for i := range hs {
+		wg.Add(1)
+		go func(i int) {
+			defer wg.Done()
+			errs[i] = hx.Guard(propC19, hs[i])
+		}(i)
+	}
+	wg.Wait()
+	for i, err := range errs {
+		hC19.Eval()
+		if err != nil {
+			hC19.Fail(t, "TestC19", hs[i], "incomplete oldest event, complete events behind it, a sleep of %dus, timeout %v: %v", hs[i].Ops[len(hs[i].Ops)-5].SleepUs, time.Duration(hs[i].TimeoutNs), err)
+		}
+		hC19.Class("history-with-sleep-of-0.7s-or-more-under-a-long-timeout")
+	}
+}
